@@ -23,6 +23,24 @@ UNITS = ["nm", "A", "mrad", "px", "s", "A^-1", "", "a b"]
 ORIG = [Q(0), Q(1), Q(-2), Q(1, 2), Q(-3, 4), Q(5), Q(3, 2), Q(10), Q(1024), Q(-1, 1024)]
 SAMP = [Q(1), Q(2), Q(1, 2), Q(1, 4), Q(3), Q(3, 2), Q(5, 4), Q(1, 8), Q(100), Q(1, 1024)]
 DTS = ["i8", "f8", "f8", "f4", "c16", "i4", "c8"]
+# narrow integer storage (detector frames): 30% of the generated arrays; 75% of those with values at the top (signed:
+# also the bottom) of the dtype's range, so that block sums / padded constants / means leave the range of the stored dtype
+NARROW = ["u1", "u1", "i1", "u2", "u2", "i2", "u4", "i4"]
+
+
+def gen_data(r, shape, small_base):
+    """-> (dtype code, base): the array is base, base+1, ... (row-major) in that dtype; every value representable"""
+    if r.random() >= 0.3:
+        return r.choice(DTS), small_base
+    dt = r.choice(NARROW)
+    n = int(np.prod(shape)) if len(shape) else 1
+    info = np.iinfo(M.DTYPES[dt])
+    x = r.random()
+    if x < 0.6 or (x < 0.75 and info.min == 0):
+        return dt, max(int(info.min), int(info.max) - n + 1 - r.randint(0, 2))
+    if x < 0.75:
+        return dt, int(info.min) + r.randint(0, 2)
+    return dt, min(small_base, max(0, int(info.max) - n + 1))
 PAD_KW = [{"mode": "edge"}, {"constant_values": 2}, {"mode": "wrap"}]
 
 
@@ -108,8 +126,10 @@ def gen_from_array(r, counter, ndim=None, cls=None):
         else:
             ndim = k if r.random() < 0.8 else r.choice([k - 1, k - 1, k + 1])
     eff = ndim if k is None else max(k, ndim)
-    op = {"k": "from_array", "cls": cls, "shape": gen_shape(r, ndim), "dt": r.choice(DTS),
-          "base": 10 * counter + 1, "origin": gen_num(r, eff, ORIG), "sampling": gen_num(r, eff, SAMP),
+    shape = gen_shape(r, ndim)
+    dt, base = gen_data(r, shape, 10 * counter + 1)
+    op = {"k": "from_array", "cls": cls, "shape": shape, "dt": dt,
+          "base": base, "origin": gen_num(r, eff, ORIG), "sampling": gen_num(r, eff, SAMP),
           "units": gen_units(r, eff)}
     if r.random() < 0.12:
         op["aslist"] = True
@@ -279,8 +299,9 @@ def gen_op(r, impl, counter, depth_left):
         return {"k": k, "t": t, "v": gen_units(r, n, wrong=0.15, setter=True)}
     if k == "set_array":
         nd = n if r.random() < 0.75 else max(1, n + r.choice([-1, -1, 1]))
-        return {"k": k, "t": t, "shape": gen_shape(r, nd), "dt": r.choice(DTS),
-                "base": 10 * counter + 3, "aslist": r.random() < 0.15}
+        shape_new = gen_shape(r, nd)
+        dt, base = gen_data(r, shape_new, 10 * counter + 3)
+        return {"k": k, "t": t, "shape": shape_new, "dt": dt, "base": base, "aslist": r.random() < 0.15}
     if k == "set_array_from":
         return {"k": k, "t": t, "src": r.choice(cands)}
     if k == "pad":
@@ -457,6 +478,34 @@ def norm_dp(d, op):
     return op
 
 
+# narrow-dtype sweep (oracle only): every flagged operation, in both variants, on data stored narrower than what NumPy
+# computes in (block sums -> 64-bit accumulator, means / FFT -> float64 / float32, bool -> int64)
+NARROW_DTS = ["u1", "i1", "u2", "i2", "u4", "i4", "f2", "f4", "c8", "b1"]
+NARROW_SHAPES = [[6], [4, 6], [5, 4], [2, 4, 3], [2, 2, 4, 2], [1, 3, 1, 2, 2]]
+
+
+def narrow_ops(shape):
+    n = len(shape)
+    return [
+        ({"k": "pad", "spec": ["int", 1]}, None),
+        ({"k": "pad", "spec": ["pairs", [[i % 2, 1] for i in range(n)]]}, {"mode": "edge"}),
+        ({"k": "pad", "spec": ["shape", [s + 1 + i % 2 for i, s in enumerate(shape)]]}, {"constant_values": 2}),
+        ({"k": "pad", "spec": ["pair", 1, 0]}, {"mode": "wrap"}),
+        ({"k": "pad", "spec": ["int", 1]}, {"mode": "mean"}),
+        ({"k": "crop", "w": [[1 if s > 1 else 0, 0] for s in shape], "axes": None}, None),
+        ({"k": "crop", "w": [[0, -1 if shape[-1] > 1 else 0]], "axes": [-1]}, None),
+        ({"k": "bin", "f": 2, "axes": None, "mean": False}, None),
+        ({"k": "bin", "f": [2], "axes": [n - 1], "mean": False}, None),
+        ({"k": "bin", "f": [3], "axes": [-1], "mean": False, "rsp": 1}, None),
+        ({"k": "bin", "f": [2, 1][:n], "axes": [n - 1, 0][:n], "mean": False}, None),
+        ({"k": "bin", "f": 2, "axes": None, "mean": True}, None),
+        ({"k": "bin", "f": [2], "axes": 0, "mean": True}, None),
+        ({"k": "fourier", "spec": ["fac", Q(3, 2)], "axes": None}, None),
+        ({"k": "fourier", "spec": ["out", [2]], "axes": [-1]}, None),
+        ({"k": "fourier", "spec": ["fac", Q(1, 2)], "axes": 0}, None),
+    ]
+
+
 # index sweep: Ellipsis in every position, negative steps, length-1 axes, 1..5 dimensions
 SWEEP_SHAPES = {1: [3], 2: [1, 3], 3: [2, 1, 3], 4: [2, 1, 1, 2], 5: [1, 2, 1, 2, 1]}
 SWEEP_ITEMS = [["i", 0], ["i", -1], ["s", None, None, -1], ["s", None, None, -2], ["s", 1, None, 2],
@@ -500,6 +549,12 @@ SEEDS = [
      "origin": ["l", [Q(2), Q(-1)]], "sampling": ["x", "nps", Q(3)], "units": ["x", "tuple", ["nm", "nm"]]},
     {"k": "from_shape", "cls": "D4stem", "shape": [2, 3, 2, 2], "fill": 1,
      "origin": ["x", "nd", [Q(0), Q(1), Q(2), Q(3)]], "sampling": ["s", Q(2)], "units": None},
+    # narrow integer storage with values at the top / bottom of the dtype's range (uint8 230..253, int16 -32768..):
+    # every block sum, mean and padded constant leaves the stored dtype
+    {"k": "from_array", "cls": "D2", "shape": [4, 6], "dt": "u1", "base": 230,
+     "origin": ["l", [Q(1, 2), Q(-1)]], "sampling": ["l", [Q(1, 4), Q(2)]], "units": ["l", ["nm", "A"]]},
+    {"k": "from_array", "cls": "D3", "shape": [2, 4, 3], "dt": "i2", "base": -32768,
+     "origin": None, "sampling": ["s", Q(1, 2)], "units": ["s", "px"]},
 ]
 
 
@@ -771,6 +826,10 @@ def account(ctx: Ctx, rec, kind):
             ctx.dist("ndim/%d" % len(st["t_obs"]["shape"]))
         if op["k"] in ("pad", "crop", "bin", "fourier") and st["int_cal"]:
             ctx.dist("integer-typed-calibration/%s%s" % (op["k"], "/in_place" if op.get("ip") else ""))
+        if op["k"] in ("from_array", "set_array") and "dt" in op:
+            ctx.dist("data-dtype/%s%s" % (op["dt"], "/edge-of-range" if (
+                op["dt"] in M.NARROW_INT and (op["base"] < 0 or op["base"] + int(np.prod(op["shape"])) + 2 >= np.iinfo(
+                    M.DTYPES[op["dt"]]).max)) else ""))
         if op.get("aform") or op.get("aslist") or op.get("cca") is False:
             ctx.dist("argument-spelling/%s" % (op.get("aform") or ("array-like" if op.get("aslist") else "copy(False)")))
         if op["k"] == "getitem" and (op.get("form") or op.get("via")):
@@ -859,11 +918,17 @@ def run(ctx: Ctx):
         "indexing, Dataset3d.to_dataset2d, Dataset4dstem.get_dp_mean/max/median and get_virtual_image) executed on "
         "real objects and on the model: corpus sequences, sequences of length 2 (quick: every 4th / 7th pair on "
         "the 3-D / 4-D seed while the anchored source equals the recorded baseline, all 900 / every 5th once the "
-        "drift guard fires) / 3 (thorough: 30 operations on the 3-D seed = 27 000) over an instantiated alphabet, every alphabet operation on seven "
-        "1-5-D seeds of every class (one with integer-typed calibration), an index sweep (all tuples of <= 3 "
+        "drift guard fires) / 3 (thorough: 30 operations on the 3-D seed = 27 000) over an instantiated alphabet, every alphabet operation on nine "
+        "1-5-D seeds of every class (one with integer-typed calibration, two with uint8 / int16 data at the edge of "
+        "the dtype's range), an index sweep (all tuples of <= 3 "
         "items from 9, with an Ellipsis in every position, on 1-5-D datasets with length-1 axes; quick: a "
         "seeded sample), and seeded random sequences of length <= 12 generated against the live state (about "
-        "8% malformed arguments); plus oracle-only cases of Dataset4dstem objects with attached datasets; "
+        "8% malformed arguments; 30% of the generated arrays in a narrow integer dtype uint8/int8/uint16/int16/uint32/"
+        "int32, 3/4 of those with values at the edge of the dtype's range); plus oracle-only cases: Dataset4dstem "
+        "objects with attached datasets, and a narrow-dtype sweep (uint8 ... int32, float16, float32, complex64, "
+        "bool data at the edge of the range x 6 shapes of 1-5 dimensions x 16 pad/crop/bin/fourier_resample calls: "
+        "values AND dtype of the in-place and the copying variant compared with each other and with NumPy's own "
+        "result on the bare array); "
         "distinct by its operations, non-trivial when at least two operations succeed and at least two "
         "datasets are alive at the end")
     ctx.assumptions += [
@@ -944,7 +1009,9 @@ def run(ctx: Ctx):
     # every alphabet entry once on every seed (all dimensionalities 1..5, every class)
     recs = []
     for sd in SEEDS:
-        for a in alphabet(full=True):
+        # quick: the two narrow-integer seeds take the 30-operation alphabet (pad / crop / bin / fourier in both variants,
+        # indexing, setters), the other seeds all 71 operations
+        for a in alphabet(full=not (ctx.quick and sd["k"] == "from_array" and sd["dt"] in M.NARROW_INT)):
             rec = run_impl(fixed([sd]) + [a])
             account(ctx, rec, "exhaustive")
             report_oracle(ctx, rec, "alphabet")
@@ -988,6 +1055,25 @@ def run(ctx: Ctx):
             ctx.violation(key, what, {"kind": "attached", "rng_seed": seed_i, "desc": desc})
     ctx.log("4dstem attached-state oracle: %d cases" % n_att)
 
+    # 2d. narrow-dtype sweep (oracle only: the model's data are exact numbers, a dtype is not part of it)
+    n_nar = 0
+    for rep in range(ctx.budget(1, 6)):
+        for dt in NARROW_DTS:
+            for shape in NARROW_SHAPES:
+                for op, extra in narrow_ops(shape):
+                    seed_i = r.randrange(1 << 60)
+                    bad, arr = M.oracle_narrow(seed_i, dt, shape, op, extra)
+                    n_nar += 1
+                    ctx.count(("narrow", dt, seed_i, json.dumps(M.jsonable([shape, op, extra]), sort_keys=True)),
+                              nontrivial=True)
+                    ctx.dist("sequences/narrow-dtype")
+                    ctx.dist("narrow-dtype/%s/%s" % (dt, op["k"]))
+                    for key, what in bad:
+                        ctx.violation(key, what, {"kind": "narrow", "rng_seed": seed_i, "dt": dt, "shape": shape,
+                                                  "op": M.jsonable(op), "extra": extra,
+                                                  "array": str(arr.reshape(-1)[:8].tolist())})
+    ctx.log("narrow-dtype sweep: %d cases (both variants each)" % n_nar)
+
     # 3. random histories
     nseq = ctx.budget(60, 5000)
     recs = []
@@ -1011,6 +1097,15 @@ def replay(ctx: Ctx, path):
     if rp.get("kind") == "attached":
         bad, desc = M.oracle_attached(__import__("random").Random(rp["rng_seed"]))
         print("Dataset4dstem with attached datasets:", desc)
+        for key, what in bad:
+            print("oracle: [%s] %s" % (key, what))
+        if not bad:
+            print("oracle: property holds on this case")
+        return 1 if bad else 0
+    if rp.get("kind") == "narrow":
+        bad, arr = M.oracle_narrow(rp["rng_seed"], rp["dt"], rp["shape"], rp["op"], rp.get("extra"))
+        print("%s array of shape %s: %s\n  operation %s %s, in place and copying" % (
+            arr.dtype, list(arr.shape), arr.reshape(-1)[:12].tolist(), M.op_str(rp["op"]), rp.get("extra") or ""))
         for key, what in bad:
             print("oracle: [%s] %s" % (key, what))
         if not bad:
